@@ -741,10 +741,13 @@ class _ConnectionRecord(ConnectionPoolEntry):
     def _checkin_failed(
         self, err: BaseException, _fairy_was_created: bool = True
     ) -> None:
-        self.invalidate(e=err)
-        self.checkin(
-            _fairy_was_created=_fairy_was_created,
-        )
+        try:
+            self.invalidate(e=err)
+        finally:
+            # also if closing the connection raised a BaseException
+            self.checkin(
+                _fairy_was_created=_fairy_was_created,
+            )
 
     def checkin(self, _fairy_was_created: bool = True) -> None:
         if self.fairy_ref is None and _fairy_was_created:
@@ -1016,7 +1019,15 @@ def _finalize_fairy(
                 "Exception during reset or similar", exc_info=True
             )
             if connection_record:
-                connection_record.invalidate(e=e)
+                try:
+                    connection_record.invalidate(e=e)
+                except BaseException:
+                    # a second fault while the connection is closed, e.g.
+                    # a further cancellation; the record still goes
+                    # back to the pool so that its slot is not lost
+                    if connection_record.fairy_ref is not None:
+                        connection_record.checkin()
+                    raise
             elif can_close_or_terminate_connection:
                 # detached; there is no _ConnectionRecord that would
                 # close the DBAPI connection
